@@ -1,6 +1,6 @@
 (* C08 - Targeted events reach exactly the handlers whose query matches the target now. *)
 From Coq Require Import List NArith Bool.
-Require Import EV.Base EV.Access EV.Query EV.HList EV.World EV.ArchProofs.
+Require Import EV.Base EV.Access EV.Query EV.HList EV.World EV.ArchProofs EV.ArchAccess.
 
 (* registration puts a targeted handler into an archetype's listener list for its event iff
    its filter matches the archetype's component set *)
